@@ -1,5 +1,5 @@
-\* quick: 2-D 3x2 lattice, squared Euclidean key (1 = axis neighbours, 2 = +diagonals, 4 = +two apart), all sequences of 1..4 points; printed for replay
-CONSTANTS W = 3  H = 2  MaxN = 4  EpsSet = {1, 2, 4}  MinPtsSet = {1, 2, 3}
+\* quick: 2-D 3x2 lattice, squared Euclidean key (1 = axis neighbours, 2 = +diagonals), all sequences of 1..4 points; printed for replay
+CONSTANTS W = 3  H = 2  MaxN = 4  EpsSet = {1, 2}  MinPtsSet = {1, 2, 3}
           Key = "euc2"  Order = "asc"  Emit = TRUE
 SPECIFICATION Spec
 INVARIANT ModelSatisfiesProperty
